@@ -145,6 +145,10 @@ pub fn replay(args: &[String]) -> i32 {
         if observed != case["prog"] {
             bad += 1;
             out.line(&json!({"kind": "mismatch", "case": case, "observed": observed}));
+            // enough said: a translation that carries state from genome to genome gets slower and slower
+            if bad >= 40 {
+                break;
+            }
         }
     }
     out.line(&json!({"kind": "summary", "cases": n, "mismatches": bad}));
